@@ -198,6 +198,53 @@ partial def parsePriors : List String → List (PriorM Float × Float)
 def pNoise (s : String) : NoiseSrc Float :=
   if s == "none" then .isNone else if s == "absent" then .absent else .value (pF s)
 
+partial def parseYVal : List String → Option (YVal × List String)
+  | "pf" :: k :: r => some (.pyfloat (pI k), r)
+  | "pi" :: k :: r => some (.pyint (pI k), r)
+  | "pc" :: k :: r => some (.pycomplex (pI k), r)
+  | "nf" :: k :: r => some (.npfloat (pI k), r)
+  | "ni" :: k :: r => some (.npint (pI k), r)
+  | "nc" :: k :: r => some (.npcomplex (pI k), r)
+  | "s" :: t :: r => some (.str t, r)
+  | "b" :: t :: r => some (.pybool (t == "1"), r)
+  | "z" :: r => some (.none, r)
+  | "d" :: c :: a :: r => some (.dflt c a, r)
+  | "U" :: n :: r => some (.ufunc n, r)
+  | "K" :: n :: r => some (.cls n, r)
+  | "L" :: k :: r => do let (vs, r) ← many (pN k) r; pure (.list vs, r)
+  | "T" :: k :: r => do let (vs, r) ← many (pN k) r; pure (.tuple vs, r)
+  | "A" :: k :: r => do let (vs, r) ← many (pN k) r; pure (.arr vs, r)
+  | "O" :: c :: k :: r => do let (kvs, r) ← fields (pN k) r; pure (.obj c kvs, r)
+  | _ => none
+where
+  many : Nat → List String → Option (List YVal × List String)
+    | 0, r => some ([], r)
+    | n + 1, r => do let (v, r) ← parseYVal r; let (vs, r) ← many n r; pure (v :: vs, r)
+  fields : Nat → List String → Option (List (String × YVal) × List String)
+    | 0, r => some ([], r)
+    | n + 1, k :: r => do let (v, r) ← parseYVal r; let (kvs, r) ← fields n r; pure ((k, v) :: kvs, r)
+    | _, [] => none
+
+partial def showNode : YNode → String
+  | .num t k => "(" ++ t ++ " " ++ toString k ++ ")"
+  | .text t s => "(" ++ t ++ " " ++ s ++ ")"
+  | .bool b => "(bool " ++ toString b ++ ")"
+  | .null => "(null)"
+  | .dflt c a => "(default " ++ c ++ "." ++ a ++ ")"
+  | .seq ns => "[" ++ " ".intercalate (ns.map showNode) ++ "]"
+  | .map c kvs => "{!" ++ c ++ " " ++ " ".intercalate (kvs.map fun kv => kv.1 ++ "=" ++ showNode kv.2) ++ "}"
+
+partial def showYVal : YVal → String
+  | .pyfloat k => "pf" ++ toString k | .pyint k => "pi" ++ toString k | .pycomplex k => "pc" ++ toString k
+  | .npfloat k => "nf" ++ toString k | .npint k => "ni" ++ toString k | .npcomplex k => "nc" ++ toString k
+  | .str t => "s:" ++ t | .pybool b => "b:" ++ toString b | .none => "None"
+  | .dflt _ _ => "default"
+  | .list vs => "[" ++ " ".intercalate (vs.map showYVal) ++ "]"
+  | .tuple vs => "(" ++ " ".intercalate (vs.map showYVal) ++ ")"
+  | .arr vs => "<" ++ " ".intercalate (vs.map showYVal) ++ ">"
+  | .obj c kvs => "{" ++ c ++ " " ++ " ".intercalate (kvs.map fun kv => kv.1 ++ "=" ++ showYVal kv.2) ++ "}"
+  | .ufunc n => "ufunc:" ++ n | .cls n => "class:" ++ n
+
 def step (line : String) : String :=
   match (line.trimAscii.toString.splitOn " ").filter (· ≠ "") with
   -- C19 ---------------------------------------------------------------
@@ -426,7 +473,16 @@ def step (line : String) : String :=
       let r := lnposterior l (fun _ => xs.drop (pN n)) (xs.take (pN n)) (pF sd)
       sF (extF r.1) ++ " " ++ toString r.2
   | ["limitoverlaps", l, r, f] => toString (limitOverlapsOk (pF l) (pF r) (pF f))
-  | ["genfailures"] => toString (translationFailures ++ projTranslationFailures)
+  -- C15 ---------------------------------------------------------------
+  | "yamlnode" :: toks =>
+      match parseYVal toks with
+      | some (v, []) => showNode (represent v)
+      | _ => "bad-op"
+  | "yamlload" :: toks =>
+      match parseYVal toks with
+      | some (v, []) => showYVal (construct ctorTable (represent v))
+      | _ => "bad-op"
+  | ["genfailures"] => toString (translationFailures ++ projTranslationFailures ++ tablesTranslationFailures)
   | _ => "bad-op"
 
 partial def loop (h : IO.FS.Stream) : IO Unit := do
